@@ -1129,6 +1129,13 @@ func (e *CEnv) callExpr(x *CExpr) (Val, error) {
 		if err != nil {
 			return Val{}, err
 		}
+		if _, isChan := as[0].T.Underlying().(*types.Chan); isChan {
+			c.smt.declareFun("chan_cap", []string{"Int"}, "Int")
+			if !strings.Contains(as[0].Term, "q.") {
+				c.smt.assume(and(app(">=", app("chan_cap", as[0].Term), "0"), app("<=", app("chan_cap", as[0].Term), "72057594037927936")), "capacity of a channel")
+			}
+			return Val{T: tInt, Term: app("chan_cap", as[0].Term)}, nil
+		}
 		return Val{T: tInt, Term: app("sl_cap", as[0].Term)}, nil
 	case "base":
 		as, err := evalArgs()
